@@ -106,6 +106,7 @@ func Eval(ctx context.Context, executor Executor, roots []*Task, group *status.G
 				vtrace("EvalExit", state, err)
 				return err
 			case task := <-donec:
+				vtrace("EvalRecv", state, task)
 				state.Return(task)
 				vtrace("EvalReturn", state, task)
 				evalStatus.markDone(task)
